@@ -34,12 +34,13 @@ Definition decoder_of (dk : Z) : decoder :=
   else if dk =? 73 then DErr
   else if dk =? 74 then DChunkHeader
   else if dk =? 75 then DChunk
+  else if 100 <=? dk then DTy (nth (Z.to_nat (dk - 100)) all_structs (TS 1))   (* generated structures *)
   else DTy (TS 1).
 
 (* every decoder as M (list Z): the print of the decoded value *)
 Definition decode (dk : Z) (o : opts) : M (list Z) :=
   match decoder_of dk with
-  | DTy t => v <- dec_ty t o (depth0 o) ;; ret (ser_uval v)
+  | DTy t => v <- dec_ty t o (depth0 o) ;; ret (pr t v)
   | DMsgHeader => dec_msg_header
   | DHello => dec_hello o
   | DAck => dec_ack
@@ -62,6 +63,9 @@ Definition sizes : list Z :=
   map esize_scalar [1; 2; 3; 4; 5; 6; 7; 8; 9; 10; 11; 12; 13; 14; 15; 16; 17; 18; 19; 20; 21; 22; 25]
   ++ [DATAVALUE_SIZE; VARIANT_SIZE].
 
+(* allocation sizes of arrays of generated structures are not modelled (size_of of the structs) *)
+Definition tracks_alloc (dk : Z) : bool := dk <? 100.
+
 (* [0; consumed; depth; alloc; len print] ++ print | [-1; depth; alloc] | [-2] panic
    ([-3]: the child process died, only the implementation can produce it) *)
 Definition run (c : case) : list Z :=
@@ -70,8 +74,9 @@ Definition run (c : case) : list Z :=
   | CBytes dk o _ | CNest dk o _ _ _ =>
       let bs := case_bytes c in
       match decode dk o bs with
-      | (Ok (p, rest), s) => [0; zlen bs - zlen rest; st_depth s; floor_alloc (st_alloc s); zlen p] ++ p
-      | (Err _, s) => [-1; st_depth s; floor_alloc (st_alloc s)]
+      | (Ok (p, rest), s) =>
+          [0; zlen bs - zlen rest; st_depth s; if tracks_alloc dk then floor_alloc (st_alloc s) else 0; zlen p] ++ p
+      | (Err _, s) => [-1; st_depth s; if tracks_alloc dk then floor_alloc (st_alloc s) else 0]
       | (Panic _, _) => [-2]
       end
   end.
